@@ -57,6 +57,10 @@ func (c CreateBidTx) Validate(ctx *action.Context, signedTx action.SignedTx) (bo
 	if currency.Name != createBid.Amount.Currency {
 		return false, errors.Wrap(action.ErrInvalidAmount, createBid.Amount.String())
 	}
+	// the amount is locked with MinusFromAddress: a negative one would credit the bidder instead
+	if !createBid.Amount.IsValid(ctx.Currencies) {
+		return false, errors.Wrap(action.ErrInvalidAmount, createBid.Amount.String())
+	}
 
 	//Check if bid ID is valid(if provided)
 	if len(createBid.BidConvId) > 0 && createBid.BidConvId.Err() != nil {
